@@ -69,6 +69,9 @@ type Gen struct {
 	axioms    []string // global facts (never retracted): well-formedness of entry heap arrays
 	arrInfo   map[string]*arrInfo
 	epochBound map[int]string
+	readLog    map[string]bool
+	specReadCache map[*Pred][]string
+	inSpecReads   map[*Pred]bool
 }
 
 type arrInfo struct {
@@ -82,7 +85,7 @@ func newGen(prog *ssa.Program, cs *Contracts, fset *token.FileSet) *Gen {
 		declared: map[string]bool{}, dtDone: map[string]Sort{}, strLits: map[string]string{},
 		notes: map[string]bool{}, assumes: map[string]bool{}, tags: map[string]int{}, boxDecl: map[string]bool{},
 		oblNames: map[string]int{}, maxInline: 8, arrReg: map[string]Sort{}, axiomDone: map[string]bool{},
-		arrInfo: map[string]*arrInfo{}, epochBound: map[int]string{0: "next@0"}}
+		arrInfo: map[string]*arrInfo{}, epochBound: map[int]string{0: "next@0"}, specReadCache: map[*Pred][]string{}, inSpecReads: map[*Pred]bool{}}
 	return g
 }
 
@@ -414,6 +417,9 @@ func (g *Gen) arr(st *State, name string, elemSort Sort) string {
 		elemSort = g.arrReg[name]
 	}
 	g.arrReg[name] = elemSort
+	if g.readLog != nil {
+		g.readLog[name] = true
+	}
 	if v, ok := st.heap[name]; ok {
 		return v
 	}
